@@ -180,7 +180,7 @@ PROPS = {
             "usize is 64 bits (Verus default) for `len as u64`",
         ],
         "not_covered": [
-            "Request::recv_body (needs url::Url / HashMap stand-ins); BodyTooLong -> 413 is covered by C20's mapping harness",
+            "Request::recv_body's 413 constructor enters as a stand-in (payload_too_large_413 is a Normal 413: complete Kani harness in C20)",
             "memory residency beyond 'an in-memory body has its declared length <= S'",
         ],
     },
